@@ -248,6 +248,9 @@ func runVector(v *Vector, seed int64, wantTrace bool) VecResult {
 		if nn, _ := obs["neither"].(bool); nn {
 			res.Failures = append(res.Failures, Failure{Vid: v.ID, Step: i + 1, Act: st.Act, Prop: st.Prop, Key: "neither", Got: "neither a value nor an error", Want: "value or error", Sig: "neither"})
 		}
+		if bb, _ := obs["both"].(bool); bb {
+			res.Failures = append(res.Failures, Failure{Vid: v.ID, Step: i + 1, Act: st.Act, Prop: st.Prop, Key: "both", Got: "a value together with an error", Want: "either a value or an error", Sig: "both"})
+		}
 		if hd, ok := obs["hdrdiff"].(string); ok {
 			res.Failures = append(res.Failures, Failure{Vid: v.ID, Step: i + 1, Act: st.Act, Prop: st.Prop, Key: "hdrdiff", Got: "outcome depends on where the pre-parsed header came from (" + hd + ")", Want: "same outcome", Sig: "hdrdiff@" + hd})
 		}
